@@ -3247,6 +3247,24 @@ class ISLaEmitter(IslaLanguageListener.IslaLanguageListener):
         antlr4.ParseTreeWalker().walk(mexpr_emitter, parser.matchExpr())
         return BindExpression(*mexpr_emitter.result)
 
+    def reserved_variable_names(self, nonterminal: str) -> Set[str]:
+        """
+        Names that must not be used for a variable generated for `nonterminal`:
+        the name of the constant, previously generated names, and names that cannot
+        be parsed back as variables (ISLa keywords, SMT-LIB symbols).
+        """
+        return (
+            {"forall", "exists", "int", "in", "not", "and", "or", "xor", "implies"}
+            | {"iff", "const", "true", "false", self.constant.name}
+            | (
+                {nonterminal[1:-1]}
+                if ISLaEmitter.is_protected_smtlib_keyword(nonterminal[1:-1])
+                else set()
+            )
+            | {var.name for var in self.vars_for_free_nonterminals.values()}
+            | {var.name for var in self.vars_for_xpath_expressions.values()}
+        )
+
     def register_var_for_free_nonterminal(self, nonterminal: str) -> BoundVariable:
         if nonterminal in self.vars_for_free_nonterminals:
             return self.vars_for_free_nonterminals[nonterminal]
@@ -3255,24 +3273,8 @@ class ISLaEmitter(IslaLanguageListener.IslaLanguageListener):
         assert nonterminal[-1] == ">"
         assert len(nonterminal) > 2
 
-        # Names that must not be used for the variable standing for the nonterminal:
-        # user-chosen names, the name of the constant, generated names, and names
-        # that cannot be parsed back as variables (ISLa keywords, SMT-LIB symbols).
-        reserved_names = (
-            {"forall", "exists", "int", "in", "not", "and", "or", "xor", "implies"}
-            | {"iff", "const", "true", "false"}
-            | (
-                {nonterminal[1:-1]}
-                if ISLaEmitter.is_protected_smtlib_keyword(nonterminal[1:-1])
-                else set()
-            )
-        )
         fresh_var = fresh_bound_variable(
-            self.used_variables
-            | {self.constant.name}
-            | reserved_names
-            | {var.name for var in self.vars_for_free_nonterminals.values()}
-            | {var.name for var in self.vars_for_xpath_expressions.values()},
+            self.used_variables | self.reserved_variable_names(nonterminal),
             BoundVariable(nonterminal[1:-1], nonterminal),
             add=False,
         )
@@ -3291,9 +3293,7 @@ class ISLaEmitter(IslaLanguageListener.IslaLanguageListener):
         assert is_nonterminal(last_nonterminal)
 
         fresh_var = fresh_bound_variable(
-            self.used_variables
-            | {var.name for var in self.vars_for_free_nonterminals.values()}
-            | {var.name for var in self.vars_for_xpath_expressions.values()},
+            self.used_variables | self.reserved_variable_names(last_nonterminal),
             BoundVariable(last_nonterminal[1:-1], last_nonterminal),
             add=False,
         )
@@ -3372,7 +3372,7 @@ class ISLaEmitter(IslaLanguageListener.IslaLanguageListener):
 
             var_type = first_segment_elem[0]
             var = fresh_bound_variable(
-                self.used_variables,
+                self.used_variables | self.reserved_variable_names(var_type),
                 BoundVariable(var_type[1:-1], var_type),
                 add=False,
             )
